@@ -283,6 +283,14 @@ def appendRow (aggs : List XAgg) (sts : List AggState) (r : Row) : List AggState
 def evalChunk (aggs : List XAgg) (sts : List AggState) (c : Chunk) : List AggState :=
   (aggs.zip sts).map (fun (a, s) => evalAgg a.kind a.ty s (c.map a.arg) (c.map a.raw))
 
+/-- value the ROW path computes for one aggregate over the argument values of a group. -/
+def rowPathVal (k : AggKind) (vs : List Val) : Val := (vs.foldl (aggAppend k) (initAgg k)).result
+
+/-- value the CHUNK path computes for one aggregate over a stream of argument columns
+(`raws` = raw slots, see `arrSum`). -/
+def chunkPathVal (k : AggKind) (ty : Ty) (cols : List (List Val × List Int)) : Val :=
+  (cols.foldl (fun st c => evalAgg k ty st c.1 c.2) (initAgg k)).result
+
 /-- `SimpleAggExecutor::execute`: chunk path, exactly one output row. -/
 def simpleAgg (aggs : List XAgg) (Xs : List Chunk) : List Chunk :=
   [[(Xs.foldl (evalChunk aggs) (initStates aggs)).map AggState.result]]
